@@ -163,12 +163,19 @@ def in_child(fn, *args):
         finally:
             os._exit(code)
     os.close(w)
+    # read exactly the announced length, not "until EOF": a grandchild that hangs (a deadlock in the
+    # tree under test) inherits the write end and would keep the pipe open long after the child is gone
     chunks = []
-    while True:
+    got = 0
+    want = None
+    while want is None or got < want:
         chunk = os.read(r, 1 << 16)
         if not chunk:
             break
         chunks.append(chunk)
+        got += len(chunk)
+        if want is None and got >= 8:
+            want = 8 + struct.unpack("<Q", b"".join(chunks)[:8])[0]
     os.close(r)
     _, status = os.waitpid(pid, 0)
     buf = b"".join(chunks)
@@ -756,13 +763,16 @@ def report_violation(mod, prop, master, tier, index, v, block=0):
     # replay in a fresh process must reproduce class and digest
     import subprocess
 
-    r = subprocess.run(
-        [sys.executable, os.path.join(VERIF, "check"), prop, "--replay", path, "--quiet"],
-        capture_output=True,
-        text=True,
-        timeout=600,
-        env=dict(os.environ, PYTHONHASHSEED="12345"),
-    )
+    try:
+        r = subprocess.run(
+            [sys.executable, os.path.join(VERIF, "check"), prop, "--replay", path, "--quiet"],
+            capture_output=True,
+            text=True,
+            timeout=600,
+            env=dict(os.environ, PYTHONHASHSEED="12345"),
+        )
+    except subprocess.TimeoutExpired as e:
+        raise HarnessError(f"fresh-process replay of {path} did not finish within 600 s") from e
     if r.returncode != 1 or f"REPLAYED class={klass} digest={out3['digest']}" not in r.stdout:
         raise HarnessError(
             "nondeterministic: fresh-process replay of %s gave rc=%s out=%r err=%r" % (path, r.returncode, r.stdout[-500:], r.stderr[-500:])
